@@ -16,6 +16,28 @@ from . import apisurface
 FULL_PROBE_LIMIT = 12
 
 
+def probed_units(tree, sel):
+    """Units whose API the probe exercises: the --units selection plus any unit header given as
+    an extra main file (which the package must contain just the same)."""
+    units = list(tree.units) if sel.get("units") == "ALL" else list(sel.get("units") or [])
+    for m in sel.get("main_files") or []:
+        if m.startswith("au/units/") and m.endswith(".hh") and not m.endswith("_fwd.hh"):
+            u = m[len("au/units/"):-3]
+            if u in tree.units and u not in units:
+                units.append(u)
+    return units
+
+
+def probed_constants(tree, sel):
+    consts = list(tree.constants) if sel.get("constants") == "ALL" else [c.lower() for c in (sel.get("constants") or [])]
+    for m in sel.get("main_files") or []:
+        if m.startswith("au/constants/") and m.endswith(".hh"):
+            c = m[len("au/constants/"):-3]
+            if c in tree.constants and c not in consts:
+                consts.append(c)
+    return consts
+
+
 def includes_multi(tree, sel, order_seed, tu):
     """Include lines for the multi-header variant.  The order is seeded: a public header must
     compile no matter what was included before it (and in particular as the very first include)."""
@@ -175,8 +197,8 @@ void constant(const char *name, C c) {
 
 
 def body_main(tree, sel, probe_cfg):
-    units = tree.units if sel.get("units") == "ALL" else list(sel.get("units") or [])
-    consts = tree.constants if sel.get("constants") == "ALL" else list(sel.get("constants") or [])
+    units = probed_units(tree, sel)
+    consts = probed_constants(tree, sel)
     io = sel.get("io", True)
     out = [COMMON_HEAD]
     if io:
@@ -254,7 +276,7 @@ def checksum_fn(name, types):
 
 
 def body_other(tree, sel):
-    units = tree.units if sel.get("units") == "ALL" else list(sel.get("units") or [])
+    units = probed_units(tree, sel)
     types = unit_type_list(tree, units)
     out = [COMMON_HEAD, BODY_OTHER, checksum_fn("other_tu_checksum", types)]
     out.append("const void *other_tu_label_address(unsigned i) {")
